@@ -29,6 +29,7 @@ import (
 	"sort"
 	"strings"
 	"sync"
+	"syscall"
 	"time"
 
 	"github.com/ccbrown/api-fu/graphql/ast"
@@ -426,15 +427,26 @@ func judge(c *Case, ev *evaluated) {
 	}
 }
 
-const isolatedTimeout = 20 * time.Second
-const inProcessTimeout = 60 * time.Second
+// Limits are in CPU time, not wall time: on a loaded machine a process may not be scheduled for a
+// long while, and that must not look like a validation that does not terminate.
+const isolatedCPUSeconds = 30         // RLIMIT_CPU of the child process
+const isolatedWall = 10 * time.Minute // only a backstop
+const inProcessCPU = 90 * time.Second // CPU time one in-process case may consume
 
-// watchdog: an in-process validation that does not return is reported with its input (the main
-// goroutine is stuck inside the validator then and does not touch the run any more).
+func cpuTime() time.Duration {
+	var ru syscall.Rusage
+	if syscall.Getrusage(syscall.RUSAGE_SELF, &ru) != nil {
+		return 0
+	}
+	return time.Duration(ru.Utime.Nano() + ru.Stime.Nano())
+}
+
+// watchdog: an in-process validation that keeps consuming CPU without returning is reported with
+// its input (the main goroutine is stuck inside the validator then and does not touch the run).
 var watch struct {
 	sync.Mutex
 	c     *Case
-	since time.Time
+	since time.Duration // process CPU time when the case started
 }
 
 func (h *harness) startWatchdog() {
@@ -444,8 +456,8 @@ func (h *harness) startWatchdog() {
 			watch.Lock()
 			c, since := watch.c, watch.since
 			watch.Unlock()
-			if c != nil && time.Since(since) > inProcessTimeout {
-				h.run.Violate("property", fmt.Sprintf("validation did not finish within %v (no verdict)", inProcessTimeout), "", false, c)
+			if c != nil && cpuTime()-since > inProcessCPU {
+				h.run.Violate("property", fmt.Sprintf("validation did not finish within %v of CPU time (no verdict)", inProcessCPU), "", false, c)
 				h.run.Finish(nil)
 				os.Exit(0)
 			}
@@ -503,10 +515,15 @@ func validateIsolated(c *Case) []realRun {
 		go func() { done <- cmd.Wait() }()
 		select {
 		case err = <-done:
-		case <-time.After(isolatedTimeout):
+		case <-time.After(isolatedWall):
 			cmd.Process.Kill()
 			err = <-done
 			timedOut = true
+		}
+		if ee, ok := err.(*exec.ExitError); ok {
+			if ws, ok := ee.Sys().(syscall.WaitStatus); ok && ws.Signaled() && (ws.Signal() == syscall.SIGXCPU || ws.Signal() == syscall.SIGKILL) && !timedOut {
+				timedOut = true
+			}
 		}
 	}
 	var runs []realRun
@@ -515,7 +532,7 @@ func validateIsolated(c *Case) []realRun {
 	}
 	msg := "validator killed the process"
 	if timedOut {
-		msg = fmt.Sprintf("validation did not finish within %v", isolatedTimeout)
+		msg = fmt.Sprintf("validation did not finish within %d s of CPU time", isolatedCPUSeconds)
 	}
 	for _, l := range strings.Split(errb.String(), "\n") {
 		if strings.HasPrefix(l, "fatal error:") || strings.HasPrefix(l, "panic:") {
@@ -528,6 +545,7 @@ func validateIsolated(c *Case) []realRun {
 
 func childMain() {
 	debug.SetMaxStack(48 << 20)
+	syscall.Setrlimit(syscall.RLIMIT_CPU, &syscall.Rlimit{Cur: isolatedCPUSeconds, Max: isolatedCPUSeconds + 5})
 	var c Case
 	if err := json.NewDecoder(os.Stdin).Decode(&c); err != nil {
 		os.Exit(3)
@@ -583,7 +601,7 @@ func (h *harness) runReal(c *Case, a, b *built, doc *ast.Document, lean *leanRep
 		return validateIsolated(c)
 	}
 	watch.Lock()
-	watch.c, watch.since = c, time.Now()
+	watch.c, watch.since = c, cpuTime()
 	watch.Unlock()
 	runs := validateAll(c, a, b, doc)
 	watch.Lock()
@@ -1120,7 +1138,7 @@ func main() {
 	run.Finish(h.model)
 }
 
-const driverTimeout = 180 * time.Second
+const driverTimeout = 400 * time.Second // wall time; a batch normally takes well under a second
 
 // askAll is AskAll with a time limit: a specification or model evaluation that does not come back
 // is reported (with the batch that was being evaluated) instead of stalling the whole check.
